@@ -267,4 +267,11 @@ def c18_g(ctx: Ctx):
     return res
 
 
-RULES = [c18_a, c18_b, c18_c, c18_d, c18_e, c18_f, c18_g]
+@rule("C18-h")
+def c18_h(ctx: Ctx):
+    """signac schema / diff: an empty selection is not 'all jobs'; --exclude-const reaches detect_schema unchanged."""
+    from . import cli
+    return cli.selection_discipline(ctx, "C18-h", {"main_diff", "main_schema"}) + cli.option_forwarding(ctx, "C18-h", ["main_schema"])
+
+
+RULES = [c18_a, c18_b, c18_c, c18_d, c18_e, c18_f, c18_g, c18_h]
